@@ -7,6 +7,17 @@ HERE = os.path.dirname(os.path.dirname(os.path.abspath(__file__)))
 BASELINE = "cd /repo && /venv/bin/python -m pytest -ra -q -p no:cacheprovider --timeout=900 --continue-on-collection-errors"
 
 CHECKS = {
+    'C11': dict(
+        text='Lean theorems on the assigner model: reservation scopes, assigned-name sets and the preserved-name collection are used '
+             'through membership only (congruence of every step and of the whole loop under set-equal states, permutation invariance of '
+             'the preserved globals), so no set iteration order, hence no hash seed, can change the chosen names; the generated top level '
+             'of minify() copies caller-supplied lists before extending them (decide on the pipeline table). Process-level facts are '
+             'decided on the real code: fresh interpreters under 8/48 hash seeds, call histories reusing argument objects (deep-copy '
+             'comparison), 8 threads behind a barrier.',
+        note='PARTIAL: thread interleavings are sampled (bytecode-level schedules cannot be exhibited by a model); mapper/binder sets are '
+             'covered by the process-level runs only. Trusted: the harness in tools/props/c11.py.',
+        technique='Lean 4 proof (congruence / permutation invariance) + generated pipeline table + multi-process, history and thread runs',
+        ref='§6 C11'),
     'C05': dict(
         text='Lean: a model of SuiteTransformer and of the tree transforms (pass, asserts, debug, literal statements with the __doc__ guard, '
              'imports, return None, object base, annotations with the dataclass/NamedTuple/TypedDict exemption, positional-only markers, '
